@@ -946,6 +946,7 @@ func c19More(c *core.Ctx, dp *c19Deploy) {
 	wait := c19CommandStart(c)
 	c19CommandTO2Runs(c, dp)
 	wait()
+	c19PluginStops(c, dp)
 }
 
 // development aids: `implrun -prop C19-MORE`, `-prop C19-COMMAND`
